@@ -167,6 +167,9 @@ type State struct {
 	noted map[*ssa.Function]bool
 	constCache map[int]*Term
 	hadCandidate bool
+	inLibrary int
+	globalWrites []string
+	libFn map[*ssa.Function]bool
 	usedUF bool // the path used an uninterpreted function (its model need not replay natively)
 	known map[int]*Term // terms pinned to a constant by a taken equality on this path
 	choicesPinned map[string]int64
